@@ -37,6 +37,9 @@ type scase struct {
 	// Dup: the archive holds an earlier entry with the same name as the first
 	// golden (legal unless RequireUniqueNames); the later copy is the one on disk
 	Dup bool `json:"dup,omitempty"`
+	// End: a line after the comparisons that ends the script early and passed
+	// ("stop", also behind a condition)
+	End string `json:"end,omitempty"`
 }
 
 func (c scase) String() string {
@@ -53,6 +56,9 @@ func (c scase) String() string {
 			m = "match"
 		}
 		p = append(p, fmt.Sprintf("%s:%q:%s", l.Kind, contents[l.Content], m))
+	}
+	if c.End != "" {
+		p = append(p, c.End)
 	}
 	return strings.Join(p, " ; ")
 }
@@ -120,6 +126,10 @@ func build(c scase) (string, bool) {
 		files = append(files, txtar.File{Name: fmt.Sprintf("mid%d", i), Data: []byte(fmt.Sprintf("untouched %d\n> keep\n", i))})
 	}
 	files = append(files, txtar.File{Name: "sub/keep", Data: nil}, txtar.File{Name: "post", Data: []byte("untouched post\n")})
+	if c.End != "" {
+		// the script ends here, passed; the line after it must not matter
+		fmt.Fprintf(&script, "%s\ncmp pre post\n", c.End)
+	}
 	script.WriteString("\n\n")
 	return string(txtar.Format(&txtar.Archive{Comment: []byte(script.String()), Files: files})), true
 }
@@ -457,6 +467,15 @@ func realMain() {
 		}
 		dupLines = append(dupLines, cmpLine{k, 1, true})
 	}
+	// the script is ended early by stop after the comparisons
+	for _, end := range []string{"stop", "[linux] stop", "stop reason"} {
+		for _, a := range dupLines {
+			cases = append(cases, scase{Lines: []cmpLine{a}, End: end})
+			for _, b := range dupLines {
+				cases = append(cases, scase{Lines: []cmpLine{a, b}, End: end})
+			}
+		}
+	}
 	for _, a := range dupLines {
 		cases = append(cases, scase{Lines: []cmpLine{a}, Dup: true})
 		for _, b := range dupLines {
@@ -501,7 +520,7 @@ func realMain() {
 	wg.Wait()
 	r.Set("evaluations", done)
 	r.Set("distinct_nontrivial", st.updated)
-	r.Set("rule", "every script with 1 or 2 comparison lines (thorough: 3 over a reduced alphabet) from 7 kinds (cmp stdout / stderr / file against an archive golden, the same golden through another path spelling, negated cmp, cmpenv, cmp against a file outside the archive) x 13 actual contents (empty, no final newline, marker lines, lines that start like a marker but are none, quoted-looking, CRLF, unquotable) x golden matching or not; untouched entries before, between and after; batches of two scripts in one RunT call; archives that repeat the first golden's name. non-trivial = golden entries actually rewritten and verified, counted")
+	r.Set("rule", "every script with 1 or 2 comparison lines (thorough: 3 over a reduced alphabet) from 7 kinds (cmp stdout / stderr / file against an archive golden, the same golden through another path spelling, negated cmp, cmpenv, cmp against a file outside the archive) x 13 actual contents (empty, no final newline, marker lines, lines that start like a marker but are none, quoted-looking, CRLF, unquotable) x golden matching or not; untouched entries before, between and after; batches of two scripts in one RunT call; archives that repeat the first golden's name; scripts ended early by stop after the comparisons. non-trivial = golden entries actually rewritten and verified, counted")
 	r.Set("golden_entries_rewritten_and_verified", st.updated)
 	r.Set("of_which_quoted", st.quoted)
 	r.Set("entries_verified_untouched", st.untouched)
